@@ -121,4 +121,76 @@ extern spec_state verif_A_pre, verif_A_post;  /* stage A: post = ref_round(pre, 
 #define ASCON_VERIF_GHOST_permute_c32_bottom
 #endif
 
+/* ---- masked 64-bit C permutations ascon-x{2,3,4}-c64.c (C10) ----
+ * Same lemma/use pair as above over the UNMASKED value of each word: the XOR of
+ * the shares after undoing the per-share rotation (11 bits per share index; none
+ * for the direct-xor word backend).  x2 is kept inverted in share a. */
+#if defined(VERIF_LC_permute_x2_c64) || defined(VERIF_LC_permute_x3_c64) || defined(VERIF_LC_permute_x4_c64)
+#if defined(ASCON_MASKED_WORD_BACKEND_DIRECT_XOR)
+#define VM_UNROT(x, k) ((uint64_t)(x))
+#else
+#define VM_UNROT(x, k) ((uint64_t)(((uint64_t)(x) << (11 * (k))) | ((uint64_t)(x) >> (64 - 11 * (k)))))
+#endif
+#if !defined(VERIF_RC64)
+#define VERIF_RC64(k) (RC[k] == (uint64_t)~(uint64_t)((((uint64_t)0x0F - (k)) << 4) | (k)))
+#endif
+#define VM_STRUCT \
+    __CPROVER_loop_invariant(VERIF_RC64(0) && VERIF_RC64(1) && VERIF_RC64(2) && VERIF_RC64(3) && \
+                             VERIF_RC64(4) && VERIF_RC64(5) && VERIF_RC64(6) && VERIF_RC64(7) && \
+                             VERIF_RC64(8) && VERIF_RC64(9) && VERIF_RC64(10) && VERIF_RC64(11)) \
+    __CPROVER_loop_invariant(first_round >= __CPROVER_loop_entry(first_round)) \
+    __CPROVER_loop_invariant(first_round <= 12 || first_round == __CPROVER_loop_entry(first_round))
+#define VM_TOP \
+    uint64_t verif_g0 = VM_U(x0, ), verif_g1 = VM_U(x1, ), verif_g2 = VM_U(x2, ~), verif_g3 = VM_U(x3, ), verif_g4 = VM_U(x4, ); \
+    uint8_t verif_gk = first_round;
+#define VM_NOW(EQ, k) EQ(k, VM_U(x0, ), VM_U(x1, ), VM_U(x2, ~), VM_U(x3, ), VM_U(x4, ))
+#if defined(VERIF_STAGE_A)
+#define VM_LOOP(ASSIGNS) ASSIGNS VM_STRUCT __CPROVER_decreases(12 - (int)VERIF_IDX(first_round))
+#define VM_BOTTOM \
+    __CPROVER_assert(verif_gk != verif_kk || \
+        !VERIF_S_EQ(verif_A_pre, verif_g0, verif_g1, verif_g2, verif_g3, verif_g4) || VM_NOW(VERIF_S_EQ, verif_A_post), \
+        "masked round lemma: one masked round equals ref_round on the unmasked value, for every share pattern and every randomness");
+#else
+#define VM_LOOP(ASSIGNS) ASSIGNS VM_STRUCT \
+    __CPROVER_loop_invariant(VM_NOW(VERIF_T_EQ, VERIF_IDX(first_round))) \
+    __CPROVER_decreases(12 - (int)VERIF_IDX(first_round))
+#define VM_BOTTOM \
+    __CPROVER_assume((unsigned)(verif_gk) < verif_r0 || \
+        !VERIF_T_EQ(verif_gk, verif_g0, verif_g1, verif_g2, verif_g3, verif_g4) || VM_NOW(VERIF_T_EQ, verif_gk + 1));
+#endif
+#endif
+
+#if defined(VERIF_LC_permute_x2_c64)
+#define VM_U(x, inv) ((uint64_t)(inv x##_a) ^ VM_UNROT(x##_b, 1))
+#define ASCON_VERIF_LOOP_permute_x2_c64 VM_LOOP(__CPROVER_assigns(first_round, x0_a, x1_a, x2_a, x3_a, x4_a, x0_b, x1_b, x2_b, x3_b, x4_b, t0_a, t0_b, t1_a, t1_b))
+#define ASCON_VERIF_GHOST_permute_x2_c64_top VM_TOP
+#define ASCON_VERIF_GHOST_permute_x2_c64_bottom VM_BOTTOM
+#else
+#define ASCON_VERIF_LOOP_permute_x2_c64
+#define ASCON_VERIF_GHOST_permute_x2_c64_top
+#define ASCON_VERIF_GHOST_permute_x2_c64_bottom
+#endif
+#if defined(VERIF_LC_permute_x3_c64)
+#define VM_U(x, inv) ((uint64_t)(inv x##_a) ^ VM_UNROT(x##_b, 1) ^ VM_UNROT(x##_c, 2))
+#define ASCON_VERIF_LOOP_permute_x3_c64 VM_LOOP(__CPROVER_assigns(first_round, x0_a, x1_a, x2_a, x3_a, x4_a, x0_b, x1_b, x2_b, x3_b, x4_b, \
+    x0_c, x1_c, x2_c, x3_c, x4_c, t0_a, t0_b, t0_c, t1_a, t1_b, t1_c))
+#define ASCON_VERIF_GHOST_permute_x3_c64_top VM_TOP
+#define ASCON_VERIF_GHOST_permute_x3_c64_bottom VM_BOTTOM
+#else
+#define ASCON_VERIF_LOOP_permute_x3_c64
+#define ASCON_VERIF_GHOST_permute_x3_c64_top
+#define ASCON_VERIF_GHOST_permute_x3_c64_bottom
+#endif
+#if defined(VERIF_LC_permute_x4_c64)
+#define VM_U(x, inv) ((uint64_t)(inv x##_a) ^ VM_UNROT(x##_b, 1) ^ VM_UNROT(x##_c, 2) ^ VM_UNROT(x##_d, 3))
+#define ASCON_VERIF_LOOP_permute_x4_c64 VM_LOOP(__CPROVER_assigns(first_round, x0_a, x1_a, x2_a, x3_a, x4_a, x0_b, x1_b, x2_b, x3_b, x4_b, \
+    x0_c, x1_c, x2_c, x3_c, x4_c, x0_d, x1_d, x2_d, x3_d, x4_d, t0_a, t0_b, t0_c, t0_d, t1_a, t1_b, t1_c, t1_d))
+#define ASCON_VERIF_GHOST_permute_x4_c64_top VM_TOP
+#define ASCON_VERIF_GHOST_permute_x4_c64_bottom VM_BOTTOM
+#else
+#define ASCON_VERIF_LOOP_permute_x4_c64
+#define ASCON_VERIF_GHOST_permute_x4_c64_top
+#define ASCON_VERIF_GHOST_permute_x4_c64_bottom
+#endif
+
 #endif
